@@ -82,7 +82,18 @@ pub trait PostConversionLinter {
         Ok(())
     }
 
-    fn visit_dim(&mut self, _dim_list: &DimList) -> Result<(), LintErrorPos> {
+    fn visit_dim(&mut self, dim_list: &DimList) -> Result<(), LintErrorPos> {
+        // the bounds of an array are expressions
+        for dim_var in &dim_list.variables {
+            if let DimType::Array(dimensions, _) = dim_var.element.var_type() {
+                for ArrayDimension { lbound, ubound } in dimensions {
+                    if let Some(lbound) = lbound {
+                        self.visit_expression(lbound)?;
+                    }
+                    self.visit_expression(ubound)?;
+                }
+            }
+        }
         Ok(())
     }
 
@@ -157,7 +168,9 @@ pub trait PostConversionLinter {
         assignment: &Assignment,
         _name_pos: Position,
     ) -> Result<(), LintErrorPos> {
-        let (_, v) = assignment.into();
+        let (l, v) = assignment.into();
+        // the left side can hold expressions too (array indices)
+        self.visit_expression(&l.clone().at_pos(_name_pos))?;
         self.visit_expression(v)
     }
 
